@@ -76,6 +76,26 @@ fn salt_name(s: &[u8; 32]) -> String {
     if s[..31].iter().all(|&x| x == 0) { format!("s{}", s[31]) } else { hex::encode(&s[..6]) }
 }
 
+/// init code whose constructor calls its creator back with the script [CREATE(U)] -- the creator is
+/// re-entered while its own CREATE is in progress -- and then returns U's runtime code.
+/// Layout: 32-byte stub ++ script ++ runtime.
+fn reenter_initcode() -> Vec<u8> {
+    let script = encode(&[Cmd::Create { value: 0, init: u_initcode(1) }]);
+    let rt = u_runtime(1);
+    let w = |x: usize| (x as u16).to_be_bytes();
+    let mut a = Asm::new();
+    a.pushb(&w(script.len())).pushb(&w(32)).op(op::PUSH0).op(op::CODECOPY);
+    a.op(op::PUSH0).op(op::PUSH0).pushb(&w(script.len())).op(op::PUSH0).op(op::PUSH0);
+    a.op(op::CALLER).op(op::GAS).op(op::CALL).op(op::POP);
+    a.pushb(&w(rt.len())).pushb(&w(32 + script.len())).op(op::PUSH0).op(op::CODECOPY);
+    a.pushb(&w(rt.len())).op(op::PUSH0).op(op::RETURN);
+    let mut c = a.assemble();
+    assert_eq!(c.len(), 32);
+    c.extend(script);
+    c.extend(rt);
+    c
+}
+
 pub fn none() -> Value {
     json!(["none"])
 }
@@ -91,8 +111,7 @@ pub struct World {
 }
 
 impl World {
-    /// genesis + two funded accounts k1, k2 + a BLS account (miner worker) + the script contract
-    /// F = CreateExternal(k1, nonce 0), which is the initial state of MC_Init.
+    /// genesis + two funded accounts k1, k2 + a BLS account (miner worker)
     pub fn new(seed: u64) -> World {
         let v = VVM::genesis(Policy::default());
         let bal = TokenAmount::from_whole(1_000_000);
@@ -110,17 +129,20 @@ impl World {
                 ("revert", vec![op::PUSH0, op::PUSH0, op::REVERT]),
                 ("sd", vec![op::CALLER, op::SELFDESTRUCT]),
                 ("empty", vec![]),
+                ("reenter", reenter_initcode()),
             ],
         };
         for i in 0..2u64 {
             w.names.borrow_mut().insert(key_addr(seed, i).to_bytes(), json!(["key", format!("k{}", i + 1)]));
         }
-        let (o, r) = create_external(&w.v, &accts[0], &w.initcode("ok"), &TokenAmount::zero());
-        assert!(o.ok(), "deploying F: {}", o.message);
-        let f = json!(["ext", ["key", "k1"], 0]);
-        assert_eq!(r.unwrap().eth_address.0, w.eth_of(&f), "F is not where the CREATE formula puts it");
-        w.last_msg.set((accts[0].id().unwrap(), 0));
+        let _ = accts;
         w
+    }
+
+    /// The first message of every trace (logged and validated like any other): k1 deploys the script
+    /// contract F = CreateExternal(k1, nonce 0); the result is the initial world of MC_Init.
+    pub fn setup_call() -> Value {
+        json!({"a": "CreateExternal", "from": ["key", "k1"], "init": "ok"})
     }
 
     pub fn initcode(&self, kind: &str) -> Vec<u8> {
@@ -575,7 +597,7 @@ impl World {
 // guided random schedules (impl -> spec direction): longer and deeper programs than the model's
 // alphabet, repeated salts, sends to addresses that later creations produce, more senders
 
-const INITS: [&str; 7] = ["ok", "ok", "ok", "revert", "sd", "empty", "ok"];
+const INITS: [&str; 8] = ["ok", "ok", "ok", "revert", "sd", "empty", "ok", "reenter"];
 
 fn random_prog(rng: &mut Rng, depth: u32, contracts: &[Value]) -> Value {
     let n = rng.range(1, if depth == 0 { 4 } else { 3 });
@@ -726,6 +748,7 @@ fn main_inner(args: &[String]) {
         for (i, beh) in read_behaviours(b).iter().enumerate() {
             let w = World::new(seed + i as u64);
             begin(&mut t, &w);
+            t.line(&w.step(&World::setup_call()));
             for call in beh {
                 t.line(&w.step(call));
             }
@@ -740,6 +763,7 @@ fn main_inner(args: &[String]) {
     for i in 0..n {
         let w = World::new(seed.wrapping_mul(1000) + i);
         begin(&mut t, &w);
+        t.line(&w.step(&World::setup_call()));
         let mut calls = vec![];
         for _ in 0..len {
             let call = random_call(&mut rng, &w);
